@@ -33,8 +33,22 @@ class StubCall(object):
         return 'StubCall(%s)' % self.kind
 
 
+def _callers():
+    """names of the /repo functions on the call stack (innermost first)"""
+    import sys
+    from .loader import REPO
+    out = []
+    f = sys._getframe(2)
+    while f is not None:
+        fn = f.f_code.co_filename
+        if fn.startswith(REPO):
+            out.append(f.f_code.co_name)
+        f = f.f_back
+    return out
+
+
 def _log(kind, **kw):
-    c = StubCall(kind, index=len(state.S.stub_log), **kw)
+    c = StubCall(kind, index=len(state.S.stub_log), callers=_callers(), **kw)
     state.S.stub_log.append(c)
     return c
 
@@ -68,6 +82,7 @@ class FreePolicy(object):
     name = 'free'
     assume_sorted_spectrum = True      # s0 >= s1 >= ... >= 0 goes into the axioms
     positive_spectrum = False          # additionally s_last > 0 (needed when the code divides by s)
+    real_spectrum = False              # eig/eigs of Hermitian pencils: eigenvalues are real (stored in a complex array)
     model_overwrite = False            # C06: havoc F-contiguous inputs of overwrite_a=True calls
     overwrite_table = None
 
@@ -125,8 +140,12 @@ class FreePolicy(object):
         kk = n if k is None else k
         tag = state.fresh('EIG')
         cplx = (not hermitian) or maxkind(A, B if B is not None else A) == 'c'
-        lam = symarray(tag + '.w', (kk,), cplx and not hermitian)
-        V = symarray(tag + '.v', (n, kk), cplx)
+        lam = symarray(tag + '.w', (kk,), cplx and not hermitian and not self.real_spectrum)
+        if not hermitian:
+            lam.kind = 'c'
+        V = symarray(tag + '.v', (n, kk), cplx if not self.real_spectrum else maxkind(A, B if B is not None else A) == 'c')
+        if not hermitian:
+            V.kind = 'c' 
         if hermitian:
             lp = lam.plain()
             for i in range(kk - 1):
@@ -358,18 +377,30 @@ def _maybe_overwrite(a_orig, flag, what):
 
 # --------------------------------------------------------------- scipy.linalg API
 def svd(a, full_matrices=True, compute_uv=True, overwrite_a=False, check_finite=True, lapack_driver='gesdd'):
-    if full_matrices is not False:
-        # np.linalg.svd / full svd : square-or-thin only when shapes agree
-        a0 = asobj(a)
-        if a0.shape[0] != a0.shape[1]:
-            raise NotImplementedError('full_matrices=True svd of non-square matrix')
     a0 = a
     a = asobj(a)
     if a.ndim != 2:
         raise ValueError('svd expects a matrix')
     P, d, W = policy().factor('svd', a)
-    _log('svd', a=a.copy(), U=P, s=d, Vh=W, contract=['U diag(s) Vh = a', 'U^H U = I', 'Vh Vh^H = I', 's sorted >= 0'])
+    call = _log('svd', a=a.copy(), U=P, s=d, Vh=W, contract=['U diag(s) Vh = a', 'U^H U = I', 'Vh Vh^H = I', 's sorted >= 0'])
     _maybe_overwrite(a0, overwrite_a, 'svd')
+    if full_matrices and a.shape[0] != a.shape[1]:
+        # full SVD: thin factors completed by fresh orthogonal-complement blocks (contract: U, Vh unitary)
+        m, n = a.shape
+        k = min(m, n)
+        cplx = a.kind == 'c'
+        if isinstance(policy(), ConcretePolicy):
+            import scipy.linalg as sl
+            u, s_, v = sl.svd(a.tofloat(), full_matrices=True, lapack_driver='gesvd')
+            P, d, W = asobj(u), asobj(s_), asobj(v)
+        else:
+            if m > k:
+                comp = symarray(state.fresh('Uperp'), (m, m - k), cplx)
+                P = wrap(_np.concatenate([P.plain(), comp.plain()], axis=1), P.kind)
+            if n > k:
+                comp = symarray(state.fresh('Vperp'), (n - k, n), cplx)
+                W = wrap(_np.concatenate([W.plain(), comp.plain()], axis=0), W.kind)
+        call.U_full, call.Vh_full = P, W
     return P, d, W
 
 
@@ -448,13 +479,19 @@ def eig(A, b=None, left=False, right=True, overwrite_a=False, overwrite_b=False,
     return lam, V
 
 
-def eigh(A, b=None, overwrite_a=False, overwrite_b=False, check_finite=True, **kw):
+def eigh(A, b=None, overwrite_a=False, overwrite_b=False, check_finite=True, subset_by_index=None, **kw):
     A0 = A
     A = asobj(A)
     B = None if b is None else asobj(b)
-    lam, V = policy().eig(A, B, hermitian=True)
+    kk = None
+    if subset_by_index is not None:
+        lo, hi = subset_by_index
+        kk = int(hi) - int(lo) + 1
+        if int(hi) != A.shape[0] - 1:
+            raise NotImplementedError('eigh subset not ending at the largest eigenvalue')
+    lam, V = policy().eig(A, B, hermitian=True, k=kk)
     _log('eigh', A=A.copy(), B=None if B is None else B.copy(), w=lam, v=V,
-         contract=['A V = B V diag(w)', 'w real ascending', 'V^H B V = I'])
+         subset=subset_by_index, contract=['A V = B V diag(w)', 'w real ascending (the largest k if a subset is requested)', 'V^H B V = I'])
     _maybe_overwrite(A0, overwrite_a, 'eigh')
     return lam, V
 
